@@ -20,7 +20,7 @@ tests/nix-files/pkgs/trl-default.nix) or to an RFC 0166 paragraph:
   `if c then a else b` value on one line           RFC 0166 "if" (fits on one line)
   indented string block                            RFC 0166 "strings" (content untouched, closing at binding indent)
   own-line `#` comment, end-of-line `#` comment,   trl-default.nix ("# This is something else", "# Many tests ...");
-  blank line between members, RFC block comment    trl-default.nix (/* … */ block between blank lines)
+  blank line between members, RFC block comment,   trl-default.nix (/* … */ block between blank lines)
   heads: `{ a }:` `{ a, b }:` `{ a, ... }:`        test_function_definition_multiline / _expression
   multi-line formals with trailing comma           trl-default.nix (pass-through only: the pinned grammar rejects them)
   `let … in` block before the body                 trl-default.nix
@@ -166,6 +166,13 @@ def render_members(kinds, decos, level):
         if "eol_comment" in ds:
             ml = ml[:-1] + [ml[-1] + " # note"]  # also after the closing line of a multi-line value
         lines += ml
+    # decorations at position len(kinds) stand between the last member and the closing brace
+    ds = [d for d, pos in decos if pos == len(kinds)]
+    if "blank_own_comment" in ds:
+        lines.append("")
+        lines.append(f"{IND*level}# to be continued")
+    if "own_comment" in ds:
+        lines.append(f"{IND*level}# end of members")
     # the canonical form never has two consecutive blank lines
     out = []
     for ln in lines:
@@ -278,7 +285,7 @@ def specs(tier):
         for kinds in itertools.product(rep, repeat=n):
             if n == 3 and len(set(kinds)) < 2:
                 continue
-            positions = [(d, p) for d in DECOS for p in range(n)]
+            positions = [(d, p) for d in DECOS for p in range(n)] + [(d, n) for d in ("own_comment", "blank_own_comment")]
             for k in (1, 2):
                 for decos in itertools.combinations(positions, k):
                     if k == 2 and (n == 3 and tier == "quick") and decos[0][1] == decos[1][1]:
